@@ -998,7 +998,8 @@ def run(ctx: vlib.Ctx):
         "hooks, context values, format encoders (to_json ...) and lazy compilation do not change the mapping: exercised "
         "by the oracle (lazy, context flag), not part of the model",
     ]
-    thm = ["C08_project_partial", "C08_project_refuted", "C08_nan_default_refuted", "C08_project_actual"]
+    thm = ["C08_project_partial", "C08_project_refuted", "C08_nan_default_refuted", "C08_project_actual",
+           "C08_spec_sorted", "C08_spec_values"]
     ctx.theorems("props/C08_kernel_K3.vo", ["K3_order", "K3_look"], kernels=["K3"])
     ctx.theorems("props/C08_kernel_K8.vo", ["K8_forward", "K8_use_kwargs"], kernels=["K8"])
     ctx.theorems("props/C08_project.vo", thm)
